@@ -32,12 +32,12 @@ class TypeFacts:
             if cp.returncode != 0 or not tmp.exists():
                 raise AnalysisError("mypy fact extraction failed: " + (cp.stderr or cp.stdout)[-400:])
             os.replace(tmp, path)
-            for old in CACHE.glob("facts-*.json"):
-                if old != path:
-                    try:
-                        old.unlink()
-                    except OSError:
-                        pass
+            olds = sorted((o for o in CACHE.glob("facts-*.json") if o != path), key=lambda o: o.stat().st_mtime, reverse=True)
+            for old in olds[6:]:  # keep a few recent digests (seed / self-test runs alternate between trees)
+                try:
+                    old.unlink()
+                except OSError:
+                    pass
         data = json.loads(path.read_text())
         self.classes: dict[str, list[str]] = data["classes"]
         self.calls: dict[tuple, tuple] = {}
